@@ -71,9 +71,12 @@ def base_corpus(ctx):
         except Exception:
             pass
     for k, t in c07.FAILERS.items():
-        out.append(("fail_" + k, "database/phreeqc.dat", t))
+        if t is not None:
+            out.append(("fail_" + k, "database/phreeqc.dat", t))
     for p in sorted(glob.glob(os.path.join(core.VERIF, "corpus", "c08", "*.pqi"))):
-        out.append(("corpus_" + os.path.basename(p)[:-4], "database/phreeqc.dat", open(p, encoding="latin-1").read()))
+        t = open(p, encoding="latin-1").read()
+        m = re.match(r"#database[ \t]+(\S+)", t)   # first line of a corpus file may name the database it needs
+        out.append(("corpus_" + os.path.basename(p)[:-4], "database/" + (m.group(1) if m else "phreeqc.dat"), t))
     return out
 
 
@@ -122,6 +125,9 @@ def _digest(rec, ret):
 def gen_cases(ctx):
     n = ctx.params.get("cases") or (3000 if ctx.tier == "quick" else 50000)
     ncorp = len(ctx.params["corpus"])
+    for j, (name, _, _) in enumerate(ctx.params["corpus"]):
+        if name.startswith("corpus_"):      # the kept inputs of earlier findings: always once as they are
+            yield dict(id="keep_" + name[7:], kind="mut", base=j, mseed=0, deliver="run", asis=True)
     for i in range(n):
         r = ctx.rng("case", i)
         w = r.random()
@@ -141,7 +147,7 @@ def unit_text(ctx, case):
     r = ctx.rng("unit", case["mseed"])
     if case["kind"] == "mut":
         name, db, text = ctx.params["corpus"][case["base"]]
-        if r.random() < 0.06:
+        if case.get("asis") or r.random() < 0.06:
             return name, db, text, ["unmutated"]
         t, names = mutate.mutate(r, text, ctx.params["options"])
         return name, db, t, names
